@@ -783,3 +783,135 @@ M("c02-prune-nonempty-dir", ["C02"], {"C02": ["R02.7"]}, "backend/s3afero/util.g
 			return nil
 		}
 		if err := fs.Remove(""")
+
+# ---------------------------------------------------------------- C05
+REVERT("f7-revert-head-versionid", ["C05"], {"C05": ["R05.1"]}, "0007-fix-HEAD-with-a-versionId-answers-for-that-version.patch", expect="headObject")
+REVERT("f9-revert-current-version-nil-c05", ["C05"], {"C05": ["R09.1n"]}, "0011-fix-deleting-the-current-version-leaves-the-key-with.patch")
+
+M("c05-get-version-falls-back-to-current", ["C05"], {"C05": ["R05.1"]}, "gofakes3.go",
+  """			obj, err = g.versioned.GetObjectVersion(bucket, object, versionID, rnge)
+			if err != nil {
+				return err
+			}""", """			obj, err = g.versioned.GetObjectVersion(bucket, object, versionID, rnge)
+			if HasErrorCode(err, ErrNoSuchVersion) {
+				obj, err = g.storage.GetObject(bucket, object, rnge)
+			}
+			if err != nil {
+				return err
+			}""")
+
+M("c05-archive-under-new-id", ["C05"], {"C05": ["R05.2"]}, "backend/s3mem/bucket.go",
+  """			object.versions.Set(object.data.versionID, object.data)""",
+  """			object.versions.Set(item.versionID, object.data)""")
+
+M("c05-archive-skipped-for-delete-markers", ["C05"], {"C05": ["R05.2"]}, "backend/s3mem/bucket.go",
+  """			object.versions.Set(object.data.versionID, object.data)
+		}""", """			if !object.data.deleteMarker {
+				object.versions.Set(object.data.versionID, object.data)
+			}
+		}""")
+
+M("c05-rmversion-deletes-wrong-key", ["C05"], {"C05": ["R05.4"]}, "backend/s3mem/bucket.go",
+  """		versionIface, ok := object.versions.Delete(versionID)""",
+  """		versionIface, ok := object.versions.Delete(object.data.versionID)""")
+
+M("c05-rm-removes-key-despite-archive", ["C05"], {"C05": ["R05.4"]}, "backend/s3mem/bucket.go",
+  """	} else if object.versions != nil && object.versions.Len() > 0 {
+		// Versions archived""", """	} else if object.versions != nil && object.versions.Len() > 1 {
+		// Versions archived""")
+
+M("c05-rmversion-promotes-without-id-match", ["C05"], {"C05": ["R05.4"]}, "backend/s3mem/bucket.go",
+  """	} else if object.data != nil && object.data.versionID == versionID {
+		result.VersionID = versionID""", """	} else if object.data != nil && (object.data.versionID == versionID || object.data.deleteMarker) {
+		result.VersionID = versionID""")
+
+M("c05-setversioning-clears-archive", ["C05"], {"C05": ["R05.4"]}, "backend/s3mem/bucket.go",
+  """	} else if b.versioning == gofakes3.VersioningEnabled {
+		b.versioning = gofakes3.VersioningSuspended
+	}""", """	} else if b.versioning == gofakes3.VersioningEnabled {
+		b.versioning = gofakes3.VersioningSuspended
+		b.objects = skiplist.NewStringMap()
+	}""")
+
+M("c05-version-id-reused-for-same-item", ["C05"], {"C05": ["R05.5"]}, "backend/s3mem/bucket.go",
+  """	item.versionID = b.versionGen()
+""", """	if item.versionID == "" {
+		item.versionID = b.versionGen()
+	}
+""")
+
+M("c05-version-id-without-counter", ["C05"], {"C05": ["R05.5"]}, "backend/s3mem/versionid.go",
+  """	v.next.Add(v.next, add1)
+	idb := []byte(fmt.Sprintf("%030d", v.next))""", """	v.next.Add(v.next, add1)
+	idb := []byte(fmt.Sprintf("%030d", v.state))""")
+
+M("c05-put-never-archives", ["C05"], {"C05": ["R05.6"]}, "backend/s3mem/bucket.go",
+  """	if b.versioning == gofakes3.VersioningEnabled {
+		if object.data != nil {
+			if object.versions == nil {""", """	if b.versioning == gofakes3.VersioningEnabled && len(item.body) > 0 {
+		if object.data != nil {
+			if object.versions == nil {""")
+
+# ---------------------------------------------------------------- C13
+REVERT("f8-revert-version-list-markers", ["C13"], {"C13": ["R13.1"]}, "0013-fix-a-truncated-version-listing-tells-the-client-whe.patch")
+REVERT("f6-revert-version-seek-nil-iter-c13", ["C13"], {"C13": ["R09.1n"]}, "0006-fix-seeking-a-version-in-an-object-without-archived-.patch")
+
+M("c13-islatest-by-position", ["C13"], {"C13": ["R13.2"]}, "backend/s3mem/backend.go",
+  """				resultVer := &gofakes3.Version{
+					Key:          version.name,
+					IsLatest:     version == object.data,""", """				resultVer := &gofakes3.Version{
+					Key:          version.name,
+					IsLatest:     version.versionID == object.data.versionID || last == nil,""")
+
+M("c13-markers-only-when-more-keys", ["C13"], {"C13": ["R13.1"]}, "backend/s3mem/backend.go",
+  """	result.IsTruncated = truncated || iter.Next()
+	if result.IsTruncated && last != nil {""", """	more := iter.Next()
+	result.IsTruncated = truncated || more
+	if more && last != nil {""")
+
+M("c13-null-substitution-first-only", ["C13"], {"C13": ["R13.4"]}, "gofakes3.go",
+  """		if ver.GetVersionID() == "" {
+			ver.setVersionID("null")
+		}""", """		if ver.GetVersionID() == "" && !bucket.IsTruncated {
+			ver.setVersionID("null")
+		}""")
+
+M("c13-versionid-shown-only-when-enabled", ["C13"], {"C13": ["R13.4"]}, "backend/s3mem/backend.go",
+  """				if bucket.versioning != gofakes3.VersioningNone { // S300005
+					resultVer.VersionID = version.versionID
+				}""", """				if bucket.versioning == gofakes3.VersioningEnabled { // S300005
+					resultVer.VersionID = version.versionID
+				}""")
+
+M("c13-page-bound-off-by-one", ["C13"], {"C13": ["R13.5"]}, "backend/s3mem/backend.go",
+  """			if page.MaxKeys > 0 && cnt >= page.MaxKeys {
+				truncated = versions.Next()
+				goto done
+			}""", """			if page.MaxKeys > 0 && cnt > page.MaxKeys {
+				truncated = versions.Next()
+				goto done
+			}""")
+
+M("c13-delete-markers-not-counted", ["C13"], {"C13": ["R13.5"]}, "backend/s3mem/backend.go",
+  """				result.Versions = append(result.Versions, marker)
+
+			} else {""", """				result.Versions = append(result.Versions, marker)
+				last = version
+				continue
+
+			} else {""")
+
+M("c13-marker-guard-after-backend", ["C13"], {"C13": ["R13.6"]}, "gofakes3.go",
+  """		if page.VersionIDMarker == "" {
+			return ErrorInvalidArgument("version-id-marker", "", "A version-id marker cannot be empty.")
+		} else if !page.HasKeyMarker {""", """		if !page.HasKeyMarker {""")
+
+M("c13-version-size-from-current", ["C13"], {"C13": ["R13.7"]}, "backend/s3mem/backend.go",
+  """					Size:         int64(len(version.body)),
+					ETag:         version.etag,""", """					Size:         int64(len(object.data.body)),
+					ETag:         version.etag,""")
+
+M("c13-delete-markers-listed-as-versions", ["C13"], {"C13": ["R13.7"]}, "backend/s3mem/backend.go",
+  """			if version.deleteMarker {
+				marker := &gofakes3.DeleteMarker{""", """			if version.deleteMarker && version == object.data {
+				marker := &gofakes3.DeleteMarker{""")
